@@ -210,6 +210,23 @@ class CacheSim:
             return set(v)
         except (ValueError, TypeError):
             pass
+        if isinstance(expr, ast.Call) and isinstance(expr.func, ast.Name) and expr.func.id in ("set", "frozenset", "tuple", "list") \
+                and not expr.keywords and len(expr.args) <= 1:
+            # set() / frozenset({...}) / frozenset(NAME): same keys as the argument
+            if not expr.args:
+                return set()
+            return self._const_set(expr.args[0], path_nodes, upto)
+        if isinstance(expr, ast.Call) and isinstance(expr.func, ast.Attribute) and expr.func.attr == "union" and not expr.keywords:
+            acc = self._const_set(expr.func.value, path_nodes, upto)
+            for a in expr.args:
+                more = self._const_set(a, path_nodes, upto)
+                if acc in (None, "?") or more in (None, "?"):
+                    return "?"
+                acc = acc | more
+            return acc if acc is not None else "?"
+        if isinstance(expr, ast.Name) and not self._assigned_locally(expr.id):
+            # a module-level constant (possibly imported): assigned exactly once, never mutated in place
+            return self._module_const_set(expr.id)
         if isinstance(expr, ast.Name):
             acc = None
             for n in path_nodes[:upto]:
@@ -242,6 +259,55 @@ class CacheSim:
             if a in (None, "?") or b in (None, "?"):
                 return "?"
             return a | b
+        return "?"
+
+    def _assigned_locally(self, name):
+        a = self.fi.node.args
+        if name in [x.arg for x in a.posonlyargs + a.args + a.kwonlyargs] or (a.vararg and a.vararg.arg == name) or (a.kwarg and a.kwarg.arg == name):
+            return True
+        for n in ast.walk(self.fi.node):
+            if isinstance(n, ast.Name) and n.id == name and isinstance(n.ctx, (ast.Store, ast.Del)):
+                return True
+        return False
+
+    def _module_const_set(self, name, _depth=0):
+        m = self.fi.module
+        for _ in range(4):
+            vals = m.constants.get(name)
+            if vals:
+                break
+            tgt = m.imports.get(name)
+            if not tgt or "." not in tgt:
+                return "?"
+            mod, name = tgt.rsplit(".", 1)
+            m = self.eng.ix.modules.get(mod)
+            if m is None:
+                return "?"
+        else:
+            return "?"
+        if len(vals) != 1:
+            return "?"
+        # mutated in place anywhere in its module (NAME.add(...), NAME |= ...): not a constant
+        for n in ast.walk(m.tree):
+            if isinstance(n, ast.AugAssign) and isinstance(n.target, ast.Name) and n.target.id == name:
+                return "?"
+            if isinstance(n, ast.Call) and isinstance(n.func, ast.Attribute) and isinstance(n.func.value, ast.Name) and n.func.value.id == name \
+                    and n.func.attr in ("add", "update", "discard", "remove", "pop", "clear", "append", "extend", "insert"):
+                return "?"
+        v = vals[0]
+        v = v.value if isinstance(v, (ast.Assign, ast.AnnAssign)) else v
+        try:
+            return set(const_eval(v))
+        except (ValueError, TypeError):
+            pass
+        if isinstance(v, ast.Call) and isinstance(v.func, ast.Name) and v.func.id in ("set", "frozenset", "tuple", "list") and len(v.args) <= 1 and not v.keywords:
+            if not v.args:
+                return set()
+            try:
+                return set(const_eval(v.args[0]))
+            except (ValueError, TypeError):
+                if isinstance(v.args[0], ast.Name) and _depth < 3:
+                    return self._module_const_set(v.args[0].id, _depth + 1)
         return "?"
 
     def _dict_keys(self, expr, path_nodes, upto):
